@@ -189,6 +189,10 @@ func (in *Interp) builtin(b *ssa.Builtin, args []Value, cc *ssa.CallCommon) Valu
 			in.gopanic("value method called using nil pointer")
 		}
 		return args[0]
+	case "Sizeof":
+		return c.Const(64, uint64(sizeof(cc.Args[0].Type())))
+	case "Alignof":
+		return c.Const(64, uint64(sizes.Alignof(cc.Args[0].Type())))
 	case "Add": // unsafe.Add
 		p := args[0].(Ptr)
 		n := in.concretize(args[1].(*Term), "unsafe.Add")
